@@ -153,26 +153,38 @@ theorem inv_bumpId {cfg : Cfg} {s : State} (h : Inv cfg s) : Inv cfg { s with ne
 def regenState (cfg : Cfg) (s : State) (k : Uri) (f : FileRef) (file : File) : State :=
   { s with
     nextId := s.nextId + 1,
-    mods := if cfg.moddir then setMod s.mods k (some ⟨f, file.content, s.clock⟩) else s.mods,
+    mods := if cfg.moddir then setMod s.mods k (some ⟨f, file.content, s.clock, false⟩) else s.mods,
     made := s.made ++ [⟨s.nextId, k, some f, file.content, s.clock⟩] }
+
+/-- the state after generating a module whose import raises: with a module directory the module file stays -/
+def lateState (cfg : Cfg) (s : State) (k : Uri) (f : FileRef) (file : File) : State :=
+  { s with
+    nextId := s.nextId + 1,
+    mods := if cfg.moddir then setMod s.mods k (some ⟨f, file.content, s.clock, true⟩) else s.mods }
 
 /-- the state after a construction that re-used the module file `m` -/
 def reuseState (s : State) (k : Uri) (f : FileRef) (m : ModFile) : State :=
   { s with nextId := s.nextId + 1, made := s.made ++ [⟨s.nextId, k, some f, m.content, m.time⟩] }
 
 /-- the module file of `k` does not stand in the way of compiling `file` from `f`: there is none, or it is older
-than the source, or it was generated from another source file -/
+than the source, or it imports and was generated from another source file -/
 def needsRegen (cfg : Cfg) (s : State) (k : Uri) (f : FileRef) (file : File) : Prop :=
-  cfg.moddir = true → ∀ m, s.mods k = some m → m.time < file.mtime ∨ m.src ≠ f
+  cfg.moddir = true → ∀ m, s.mods k = some m → m.time < file.mtime ∨ (m.late = false ∧ m.src ≠ f)
 
 inductive ConstructCase (cfg : Cfg) (s : State) (k : Uri) (f : FileRef) : Except Exc Tmpl × State → Prop
   | nofile : s.fs f = none → ConstructCase cfg s k f (.error .os, { s with nextId := s.nextId + 1 })
   | broken (file : File) : s.fs f = some file → file.broken = true → needsRegen cfg s k f file →
       ConstructCase cfg s k f (.error .compile, { s with nextId := s.nextId + 1 })
-  | regen (file : File) : s.fs f = some file → file.broken = false → needsRegen cfg s k f file →
+  | late (file : File) : s.fs f = some file → file.broken = false → file.late = true → needsRegen cfg s k f file →
+      ConstructCase cfg s k f (.error .late, lateState cfg s k f file)
+  | regen (file : File) : s.fs f = some file → file.broken = false → file.late = false →
+      needsRegen cfg s k f file →
       ConstructCase cfg s k f (.ok ⟨s.nextId, k, some f, file.content, s.clock⟩, regenState cfg s k f file)
+  | lateImport (file : File) (m : ModFile) : s.fs f = some file → cfg.moddir = true → s.mods k = some m →
+      file.mtime ≤ m.time → m.late = true →
+      ConstructCase cfg s k f (.error .late, { s with nextId := s.nextId + 1 })
   | reuse (file : File) (m : ModFile) : s.fs f = some file → cfg.moddir = true → s.mods k = some m →
-      file.mtime ≤ m.time → m.src = f →
+      file.mtime ≤ m.time → m.late = false → m.src = f →
       ConstructCase cfg s k f (.ok ⟨s.nextId, k, some f, m.content, m.time⟩, reuseState s k f m)
 
 theorem construct_cases (cfg : Cfg) (s : State) (k : Uri) (f : FileRef) :
@@ -182,20 +194,28 @@ theorem construct_cases (cfg : Cfg) (s : State) (k : Uri) (f : FileRef) :
   | none => exact .nofile hf
   | some file =>
     simp only
-    -- the two outcomes of `regenerate`
+    -- the three outcomes of `regenerate`
     have hregen : ∀ (hr : needsRegen cfg s k f file),
         ConstructCase cfg s k f
           (if file.broken = true then (.error .compile, { s with nextId := s.nextId + 1 })
+           else if file.late = true then
+             (.error .late,
+             { s with nextId := s.nextId + 1,
+                      mods := if cfg.moddir = true then setMod s.mods k (some ⟨f, file.content, s.clock, true⟩) else s.mods })
            else (.ok ⟨s.nextId, k, some f, file.content, s.clock⟩,
              { s with nextId := s.nextId + 1,
-                      mods := if cfg.moddir = true then setMod s.mods k (some ⟨f, file.content, s.clock⟩) else s.mods,
+                      mods := if cfg.moddir = true then setMod s.mods k (some ⟨f, file.content, s.clock, false⟩) else s.mods,
                       made := s.made ++ [⟨s.nextId, k, some f, file.content, s.clock⟩] })) := by
       intro hr
       cases hb : file.broken with
       | true => simp only [if_true]; exact .broken file hf hb hr
       | false =>
         simp only [Bool.false_eq_true, if_false]
-        exact .regen file hf hb hr
+        cases hl : file.late with
+        | true => simp only [if_true]; exact .late file hf hb hl hr
+        | false =>
+          simp only [Bool.false_eq_true, if_false]
+          exact .regen file hf hb hl hr
     cases hmd : cfg.moddir with
     | false =>
       simp only [Bool.false_eq_true, if_false]
@@ -210,26 +230,47 @@ theorem construct_cases (cfg : Cfg) (s : State) (k : Uri) (f : FileRef) :
         simpa [hmd] using this
       | some m =>
         simp only
+        have h0 : (!staleDecidedBeforeImport && m.late) = false := by simp [stale_decided_before_import]
+        simp only [h0, Bool.false_eq_true, if_false]
         by_cases hlt : m.time < file.mtime
         · simp only [hlt, if_true]
           have := hregen (by intro _ m' h; rw [hm] at h; injection h with h; subst h; exact Or.inl hlt)
           simpa [hmd] using this
         · simp only [hlt, if_false]
-          by_cases hsrc : m.src = f
-          · have : (moduleChecksSourceName && m.src != f) = false := by simp [hsrc]
-            simp only [this, Bool.false_eq_true, if_false]
-            exact .reuse file m hf hmd hm (Nat.le_of_not_lt hlt) hsrc
-          · have : (moduleChecksSourceName && m.src != f) = true := by
-              simp [module_checks_source_name, hsrc]
-            simp only [this, if_true]
-            have := hregen (by intro _ m' h; rw [hm] at h; injection h with h; subst h; exact Or.inr hsrc)
-            simpa [hmd] using this
+          cases hml : m.late with
+          | true => simp only [if_true]; exact .lateImport file m hf hmd hm (Nat.le_of_not_lt hlt) hml
+          | false =>
+            simp only [Bool.false_eq_true, if_false]
+            by_cases hsrc : m.src = f
+            · have : (moduleChecksSourceName && m.src != f) = false := by simp [hsrc]
+              simp only [this, Bool.false_eq_true, if_false]
+              exact .reuse file m hf hmd hm (Nat.le_of_not_lt hlt) hml hsrc
+            · have : (moduleChecksSourceName && m.src != f) = true := by
+                simp [module_checks_source_name, hsrc]
+              simp only [this, if_true]
+              have := hregen (by
+                intro _ m' h; rw [hm] at h; injection h with h; subst h; exact Or.inr ⟨hml, hsrc⟩)
+              simpa [hmd] using this
 
 theorem inv_regenState {cfg : Cfg} {s : State} (h : Inv cfg s) (k : Uri) (f : FileRef) (file : File) :
     Inv cfg (regenState cfg s k f file) := by
   unfold regenState
   apply inv_made h _ _ rfl (Nat.le_refl _)
   intro k' m hm
+  split at hm
+  · simp only [setMod] at hm
+    split at hm
+    · injection hm with hm; subst hm; exact Nat.le_refl _
+    · exact h.mod_le k' m hm
+  · exact h.mod_le k' m hm
+
+theorem inv_lateState {cfg : Cfg} {s : State} (h : Inv cfg s) (k : Uri) (f : FileRef) (file : File) :
+    Inv cfg (lateState cfg s k f file) := by
+  unfold lateState
+  refine ⟨h.mtime_le, ?_, h.stamp_le, h.coll_made, h.keys_nodup, h.ts_nodup, h.ts_lt,
+    fun t ht => Nat.lt_succ_of_lt (h.id_lt t ht), h.ids_nodup, h.bound⟩
+  intro k' m hm
+  simp only at hm
   split at hm
   · simp only [setMod] at hm
     split at hm
@@ -259,11 +300,14 @@ theorem construct_post (cfg : Cfg) (s : State) (k : Uri) (f : FileRef) :
   cases hc with
   | nofile hf => exact ⟨inv_bumpId, rfl, rfl, rfl, rfl, rfl, by intro t h; cases h⟩
   | broken file hf hb hr => exact ⟨inv_bumpId, rfl, rfl, rfl, rfl, rfl, by intro t h; cases h⟩
-  | regen file hf hb hr =>
+  | late file hf hb hl hr =>
+    exact ⟨fun h => inv_lateState h k f file, rfl, rfl, rfl, rfl, rfl, by intro t h; cases h⟩
+  | lateImport file m hf hmd hm hle hml => exact ⟨inv_bumpId, rfl, rfl, rfl, rfl, rfl, by intro t h; cases h⟩
+  | regen file hf hb hl hr =>
     refine ⟨fun h => inv_regenState h k f file, rfl, rfl, rfl, rfl, rfl, ?_⟩
     intro t h; injection h with h; subst h
     simp [regenState]
-  | reuse file m hf hmd hm hle hsrc =>
+  | reuse file m hf hmd hm hle hml hsrc =>
     refine ⟨fun h => inv_reuseState h k f hm, rfl, rfl, rfl, rfl, rfl, ?_⟩
     intro t h; injection h with h; subst h
     simp [reuseState]
@@ -414,6 +458,7 @@ theorem inv_step {cfg : Cfg} {s : State} (h : Inv cfg s) (op : Op) : Inv cfg (st
   | writeFile d u c => exact inv_setFs h _ _ (by intro f hf; injection hf with hf; subst hf; exact Nat.le_refl _)
   | deleteFile d u => exact inv_setFs h _ _ (by intro f hf; cases hf)
   | breakFile d u => exact inv_setFs h _ _ (by intro f hf; injection hf with hf; subst hf; exact Nat.le_refl _)
+  | breakFileLate d u => exact inv_setFs h _ _ (by intro f hf; injection hf with hf; subst hf; exact Nat.le_refl _)
   | getTemplate u =>
     have := inv_getTemplate h u
     simp only [step]; split <;> (rename_i heq; rw [heq] at this; exact this)
